@@ -58,9 +58,14 @@ Fixpoint lz4_cycle (n : nat) (pat cur : bytes) (racc : bytes) : bytes :=
            end
   end.
 Definition lz4_copy (n : nat) (off : nat) (racc : bytes) : option bytes :=
-  let pat := rev_append (firstn off racc) [] in
-  if Nat.ltb (length pat) off then None            (* offset reaches before the start of the output *)
-  else Some (lz4_cycle n pat pat racc).
+  if Nat.leb n off then
+    (* no overlap: the n bytes starting `off` back are, in the reversed output, elements off-n .. off-1 *)
+    let seg := firstn n (skipn (off - n) racc) in
+    if Nat.eqb (length seg) n then Some (seg ++ racc) else None   (* None: offset reaches before the start of the output *)
+  else
+    let pat := rev_append (firstn off racc) [] in
+    if Nat.ltb (length pat) off then None
+    else Some (lz4_cycle n pat pat racc).
 
 (* take with the length in N, refusing early when the input is shorter (no huge unary numbers) *)
 Definition take_N (n : N) (b : bytes) : option (bytes * bytes) :=
